@@ -57,6 +57,22 @@ SafeWorld(W) == /\ \A v \in DOMAIN W.vamm : SafeVamm(W.vamm[v])
                       W.eng.pos[v][t].exists => SafePos(W, v, W.eng.pos[v][t])
 PosOf(W, v, t) == W.eng.pos[v][t]
 Held(p) == p.exists /\ p.size # 0
+
+\* The reserve snapshots the TWAP oracles read are a GHOST too: the list the specification's own
+\* AddSnapshot rule (one per block, overwritten within the block, holding the block's final reserves)
+\* produces from the recorded reserves of every successful transaction that swapped -- not the list the
+\* implementation stored.  A defect that drops, overwrites or mis-stamps a stored snapshot then shows
+\* up as a difference between what the code does with its TWAPs and what the oracle computes.
+GSnapsNext(g, S, e, T) ==
+  [v \in Vs(T) |->
+     IF v \in DOMAIN g /\ e.kind = "tx" /\ e.res.ok /\ (\E i \in 1..Len(e.swaps) : e.swaps[i].vamm = v)
+     THEN LET n == Len(g[v])
+          IN IF g[v][n].h = S.blk.h
+             THEN [g[v] EXCEPT ![n] = [@ EXCEPT !.x = T.vamm[v].st.x, !.y = T.vamm[v].st.y]]
+             ELSE Append(g[v], [x |-> T.vamm[v].st.x, y |-> T.vamm[v].st.y, t |-> S.blk.t, h |-> S.blk.h])
+     ELSE IF v \in DOMAIN g THEN g[v] ELSE T.vamm[v].snaps]
+GW(g, W) == [W EXCEPT !.vamm = [v \in DOMAIN W.vamm |-> IF v \in DOMAIN g THEN [W.vamm[v] EXCEPT !.snaps = g[v]] ELSE W.vamm[v]]]
+
 EngineVamm(W, v) == W.vamm[v].cfg.engine = "engine"
 
 \* Funding owed on a position according to the HISTORY: (current cumulative fraction - the fraction at
@@ -374,7 +390,10 @@ RolesNext(r, S, e, T) ==
                THEN [r EXCEPT !.vamm[c].ifund = IF "ifund" \in DOMAIN a THEN a.ifund ELSE @,
                               !.vamm[c].engine = IF "engine" \in DOMAIN a THEN a.engine ELSE @]
                ELSE r
-          ELSE IF c = "engine" /\ m = "update_config" /\ "owner" \in DOMAIN a THEN [r EXCEPT !.engine.owner = a.owner]
+          ELSE IF c = "engine" /\ m = "update_config"
+          THEN [r EXCEPT !.engine.owner = IF "owner" \in DOMAIN a THEN a.owner ELSE @,
+                         !.engine.ifund = IF "ifund" \in DOMAIN a THEN a.ifund ELSE @,
+                         !.engine.fpool = IF "fpool" \in DOMAIN a THEN a.fpool ELSE @]
           ELSE IF c = "engine" /\ m = "update_pauser" THEN [r EXCEPT !.engine.pauser = a.pauser]
           ELSE IF c = "ifund" /\ m = "update_owner" THEN [r EXCEPT !.ifund.owner = a.owner]
           ELSE IF c = "fpool" /\ m = "update_owner" THEN [r EXCEPT !.fpool.owner = a.owner]
@@ -474,27 +493,37 @@ A_C11(S, e, T, aux) ==
 
 (* C12 -- trading fees exact, once, to the right pools *)
 V_C12(S, e, T, aux) ==
-  IF e.kind = "tx" /\ e.tx.c = "engine" /\ e.res.ok /\ e.tx.a.vamm \in Vs(S)
+  IF e.kind = "tx" /\ e.tx.c = "engine" /\ e.res.ok /\ "vamm" \in DOMAIN e.tx.a /\ e.tx.a.vamm \in Vs(S)
   THEN LET v == e.tx.a.vamm
            vm == S.vamm[v]
            fee(n) == [spread |-> (n * vm.cfg.spread) \div vm.cfg.D, toll |-> (n * vm.cfg.toll) \div vm.cfg.D]
-       IN CASE e.tx.m = "open_position" ->
+           \* "the insurance fund" / "the fee pool" are the accounts the ENGINE was told to pay (ghost: the
+           \* deployment's messages and every successful UpdateConfig since); no verdict while one of them
+           \* is the sender or the vault itself (their fee receipts cannot be told from other transfers)
+           IF0 == aux.roles.engine.ifund
+           FP0 == aux.roles.engine.fpool
+           judged == IF0 \notin {e.tx.s, "engine"} /\ FP0 \notin {e.tx.s, "engine"}
+           want(to, f) == (IF to = IF0 THEN f.spread ELSE 0) + (IF to = FP0 THEN f.toll ELSE 0)
+           paid(f) == SentTo(e, IF0) = want(IF0, f) /\ SentTo(e, FP0) = want(FP0, f)
+       IN IF ~judged THEN {}
+          ELSE
+          CASE e.tx.m = "open_position" ->
                  LET n == (e.tx.a.margin * e.tx.a.leverage) \div S.eng.cfg.D
-                 IN Tag(SentTo(e, "ifund") = fee(n).spread /\ SentTo(e, "fpool") = fee(n).toll, "C12.open")
+                 IN Tag(paid(fee(n)), "C12.open")
             [] e.tx.m = "close_position" /\ e.tx.s \in Traders ->
                  \* whole close: the fee the vAMM quotes for the position's open notional (the statement
                  \* does not fix the fee base of a partial close)
                  LET p == PosOf(S, v, e.tx.s)
                  IN IF PosOf(T, v, e.tx.s).exists THEN {}
-                    ELSE Tag(SentTo(e, "ifund") = fee(p.notional).spread /\ SentTo(e, "fpool") = fee(p.notional).toll, "C12.close")
+                    ELSE Tag(paid(fee(p.notional)), "C12.close")
             [] e.tx.m \in {"deposit_margin", "withdraw_margin"} ->
-                 Tag(SentTo(e, "ifund") = 0 /\ SentTo(e, "fpool") = 0, "C12.nofee")
+                 Tag(SentTo(e, IF0) = 0 /\ SentTo(e, FP0) = 0, "C12.nofee")
             [] e.tx.m \in {"liquidate", "pay_funding"} ->
-                 Tag(SentTo(e, "fpool") = 0 /\ T.bal["fpool"] = S.bal["fpool"], "C12.nofee")
+                 Tag(SentTo(e, FP0) = 0 \/ FP0 = IF0, "C12.nofee")
             [] OTHER -> {}
   ELSE {}
 A_C12(S, e, T, aux) ==
-  IF e.kind = "tx" /\ e.tx.c = "engine" /\ e.res.ok /\ e.tx.a.vamm \in Vs(S)
+  IF e.kind = "tx" /\ e.tx.c = "engine" /\ e.res.ok /\ "vamm" \in DOMAIN e.tx.a /\ e.tx.a.vamm \in Vs(S)
      /\ (S.vamm[e.tx.a.vamm].cfg.toll # 0 \/ S.vamm[e.tx.a.vamm].cfg.spread # 0)
   THEN {"fees_on", e.tx.m} \cup (IF Len(e.swaps) = 2 THEN {"reversal"} ELSE {})
        \cup (IF e.tx.m = "open_position" /\ SentTo(e, "fpool") = 0 /\ SentTo(e, "ifund") = 0 THEN {"rounds_to_zero"} ELSE {})
@@ -687,12 +716,18 @@ WindowPrices(vm, now, interval) ==
   IN {SnapPrice(vm.cfg.D, vm.snaps[i]) : i \in idx}
 V_C18(S, e, T, aux) ==
   UNION { LET sn == T.vamm[v].snaps
+              g  == GSnapsNext(aux.gsnaps, S, e, T)[v]
           IN Tag(\A i \in 1..(Len(sn) - 1) : sn[i].h < sn[i + 1].h, "C18.one_per_block")
              \cup Tag(Last(sn).x = T.vamm[v].st.x /\ Last(sn).y = T.vamm[v].st.y, "C18.final_reserves")
+             \* every stored snapshot is the snapshot of its block: that block's final reserves, stamped with
+             \* the time of the block's first trade (it may store fewer than the ghost, never different ones),
+             \* and the latest block that traded has one
+             \cup Tag(\A i \in 1..Len(sn) : \E j \in 1..Len(g) : g[j] = sn[i], "C18.block_final")
+             \cup Tag(Last(sn).h = Last(g).h, "C18.latest_block")
         : v \in Vs(T) }
   \cup
   (IF e.kind = "query" /\ IsVammName(e.tx.c) /\ e.tx.c \in Vs(S) /\ e.tx.m = "twap_price" /\ e.res.ok
-   THEN LET vm == S.vamm[e.tx.c]
+   THEN LET vm == GW(aux.gsnaps, S).vamm[e.tx.c]     \* the prices actually in effect: the ghost list
             ps == WindowPrices(vm, S.blk.t, e.tx.a.interval)
         IN Tag((\E p \in ps : p <= e.res.val) /\ (\E p \in ps : p >= e.res.val), "C18.bounds")
            \cup Tag(Cardinality({SnapPrice(vm.cfg.D, vm.snaps[i]) : i \in 1..Len(vm.snaps)}) # 1
@@ -780,7 +815,8 @@ ViolationsRaw(id, S, e, T, aux) ==
     [] id = "C18" -> V_C18(S, e, T, aux) [] id = "C20" -> V_C20(S, e, T, aux)
     [] OTHER -> {}
 Violations(id, S, e, T, aux) ==
-  IF id \in RawIds THEN ViolationsRaw(id, S, e, T, aux) ELSE ViolationsRaw(id, NormW(S), e, NormW(T), aux)
+  IF id \in RawIds THEN ViolationsRaw(id, S, e, T, aux)
+  ELSE ViolationsRaw(id, NormW(GW(aux.gsnaps, S)), e, NormW(GW(GSnapsNext(aux.gsnaps, S, e, T), T)), aux)
 
 AntecedentsRaw(id, S, e, T, aux) ==
   CASE id = "C01" -> A_C01(S, e, T, aux) [] id = "C02" -> A_C02(S, e, T, aux)
@@ -794,7 +830,8 @@ AntecedentsRaw(id, S, e, T, aux) ==
     [] id = "C18" -> A_C18(S, e, T, aux) [] id = "C20" -> A_C20(S, e, T, aux)
     [] OTHER -> {}
 Antecedents(id, S, e, T, aux) ==
-  IF id \in RawIds THEN AntecedentsRaw(id, S, e, T, aux) ELSE AntecedentsRaw(id, NormW(S), e, NormW(T), aux)
+  IF id \in RawIds THEN AntecedentsRaw(id, S, e, T, aux)
+  ELSE AntecedentsRaw(id, NormW(GW(aux.gsnaps, S)), e, NormW(GW(GSnapsNext(aux.gsnaps, S, e, T), T)), aux)
 
 
 (***************************************************************************)
@@ -810,6 +847,7 @@ AuxInit(W) ==
                  LET rs == W.feed.rounds[k] IN SelectSeq(rs, LAMBDA r : r.id >= 1)],
    chk    |-> [v \in Vs(W) |-> [t \in Traders |-> W.eng.pos[v][t].lupf]],
    roles  |-> W.given,
+   gsnaps |-> [v \in Vs(W) |-> W.vamm[v].snaps],
    open0  |-> [v \in Vs(W) |-> [set |-> FALSE, x |-> W.vamm[v].st.x, y |-> W.vamm[v].st.y]]]
 
 \* block of the last successful update of each trader's position on each vAMM: an open / close of
@@ -826,6 +864,7 @@ UpdNext(upd, S, e, T) ==
 AuxNext(aux, S, e, T) ==
   [y0     |-> aux.y0,
    roles  |-> RolesNext(aux.roles, S, e, T),
+   gsnaps |-> GSnapsNext(aux.gsnaps, S, e, T),
    open0  |-> IF e.kind = "block" /\ T.blk.h > S.blk.h
               THEN [v \in Vs(T) |-> [set |-> TRUE, x |-> S.vamm[v].st.x, y |-> S.vamm[v].st.y]]
               ELSE aux.open0,
